@@ -9,7 +9,7 @@ import os, io
 
 from ..common import SPEC, Scratch, rng, MachineryError, B
 from ..report import Report
-from .. import tlc, bf3lib as L, bec2lib as B2, bec2gen as G
+from .. import tlc, bf3lib as L, bec2lib as B2, bec2gen as G, errpaths as E
 from ..oracle_openssl import Oracle
 from . import bec2common as C
 from .mc_bec2 import run_mc_bec2
@@ -156,6 +156,9 @@ def run(tier):
                 fz = Bec2File(G.gen_content(r), pl.blocks, pl.key)
                 seams.forced.append(e_scalar)
                 G.rec_bec2_write(rec, seams, orc, fz, pl.meta, pl.encs_w, C.enc_specs(pl))
+        # error-path histories: refused write then correct write of the same object; reads without a usable decryptor
+        # (MAC checking on and off); three-block headers whose outer blocks disagree
+        E.bec2_error_paths(rec, seams, orc, r, rcpts, C, 6 if tier == "quick" else 40)
         # binding self-tests
         can = dict(hist.events[0])
         can.update({"op": "newfile", "explicit": 0, "draws": [hist.events[0]["key"] or [1] * 16], "key": [9] * 16, "grp": 999})
